@@ -145,8 +145,30 @@ def run(ctx):
 
     ctx.ob("R-SIB", "C16.2", f, "an unknown method is rejected", _chain_ends_in_raise(f, "method"), "")
     ctx.floor("C16.1", 5)
-    ctx.floor("C16.2", 8)
 
+    # the importance sampler's wrapper hands the library function the caller's n unchanged - or, if it fills in a default
+    # itself, the integer part of the ESS of the very weights it passes (the sampler's posterior_effective_sample_size is
+    # that of the final samples whenever those exist, whatever is being resampled)
+    wr = ctx.fn("nessai.samplers.importancesampler:ImportanceNestedSampler.draw_posterior_samples")
+    n_w = 0
+    ok_w = True
+    seen_w = ""
+    for pa in [x_ for x_ in _summ(wr.node, max_paths=400) if x_.end == "return"]:
+        roots_ = [v_ for v_ in pa.env.values() if isinstance(v_, ast.AST)] + ([pa.ret] if pa.ret is not None else [])
+        for r_ in roots_:
+            for c_ in ast.walk(r_):
+                if isinstance(c_, ast.Call) and src(c_.func).split(".")[-1] == "draw_posterior_samples" and not (isinstance(c_.func, ast.Attribute) and src(c_.func.value) == "self"):
+                    kw_ = {k_.arg: k_.value for k_ in c_.keywords}
+                    lw_ = kw_.get("log_w", c_.args[2] if len(c_.args) > 2 else None)
+                    nn_ = kw_.get("n", c_.args[4] if len(c_.args) > 4 else None)
+                    n_w += 1
+                    if nn_ is None or (isinstance(nn_, ast.Name) and nn_.id == "n") or (isinstance(nn_, ast.Constant) and nn_.value is None):
+                        continue
+                    good_ = lw_ is not None and canon(nn_) in (f"int(effective_sample_size({canon(lw_)}))",)
+                    if not good_:
+                        ok_w, seen_w = False, f"n=`{src(nn_)[:60]}` with log_w=`{src(lw_)[:40] if lw_ is not None else None}`"
+    ctx.ob("R-SIB", "C16.2", wr, "the sampler's wrapper passes the caller's n through, or the integer part of the ESS of the weights it resamples", ok_w and n_w >= 1, seen_w)
+    ctx.floor("C16.2", 9)
     ess_rule(ctx, "C16.3")
     # the effective sample size is computed on the posterior log-weights handed out by a property: normalising or squaring
     # them in place is harmless only while every getter of that name returns a fresh array (a getter that caches its
